@@ -251,7 +251,7 @@ func c05(r *Report) {
 					leads := false
 					for _, in2 := range instrs(handle) {
 						if st, ok := in2.(*ssa.Store); ok {
-							if fa, ok := st.Addr.(*ssa.FieldAddr); ok && fa.X == req && fieldObj(fa).Name() == "TLS" && okEdgeDominates(ta, st.Block()) {
+							if fa, ok := st.Addr.(*ssa.FieldAddr); ok && sameAs(fa.X, req) && fieldObj(fa).Name() == "TLS" && okEdgeDominates(ta, st.Block()) {
 								leads = true
 							}
 						}
@@ -271,7 +271,7 @@ func c05(r *Report) {
 					return false
 				}
 				fa, ok := st.Addr.(*ssa.FieldAddr)
-				return ok && fa.X == req && fieldObj(fa).Name() == "TLS"
+				return ok && sameAs(fa.X, req) && fieldObj(fa).Name() == "TLS"
 			}
 			for _, in := range instrs(handle) {
 				ta, isTA := in.(*ssa.TypeAssert)
@@ -301,7 +301,7 @@ func c05(r *Report) {
 		// the TLS store precedes the modifier
 		for _, in := range instrs(handle) {
 			if st, ok := in.(*ssa.Store); ok {
-				if fa, ok := st.Addr.(*ssa.FieldAddr); ok && fa.X == req && fieldObj(fa).Name() == "TLS" {
+				if fa, ok := st.Addr.(*ssa.FieldAddr); ok && sameAs(fa.X, req) && fieldObj(fa).Name() == "TLS" {
 					for _, c := range calls(handle) {
 						if isReqMod(c) && g.PathTo([]ssa.Instruction{c}, false, nil, func(i ssa.Instruction) bool { return i == ssa.Instruction(st) }) != nil {
 							r.Fail("path", "(*M.Proxy).handle: TLS state attached before the modifier", "req.TLS is stored after the request modifier ran", nil, st.Pos())
@@ -314,7 +314,7 @@ func c05(r *Report) {
 		upgraded := 0
 		for _, c := range plainCalls(hcr, nHandle) {
 			arg := c.Call.Args[2]
-			if unwrapIface(arg) == ssa.Value(hcr.Params[5]) {
+			if isParamVal(unwrapIface(arg), hcr.Params[5]) {
 				continue
 			}
 			upgraded++
@@ -387,13 +387,13 @@ func c05(r *Report) {
 		n := 0
 		for _, c := range plainCalls(hcr, nHandle) {
 			arg := c.Call.Args[2]
-			if unwrapIface(arg) == ssa.Value(hcr.Params[5]) {
+			if isParamVal(unwrapIface(arg), hcr.Params[5]) {
 				continue
 			}
 			n++
 			ok := false
 			for _, sc := range plainCalls(hcr, "(*M.Session).setConn") {
-				if sc.Call.Args[0] == ssa.Value(hcr.Params[3]) && sc.Call.Args[1] == arg && sc.Call.Args[2] == c.Call.Args[3] && gh.Before(sc, c) {
+				if isParamVal(sc.Call.Args[0], hcr.Params[3]) && sc.Call.Args[1] == arg && sc.Call.Args[2] == c.Call.Args[3] && gh.Before(sc, c) {
 					ok = true
 				}
 			}
@@ -415,7 +415,7 @@ func c05(r *Report) {
 			r.Decide("path", "(*M.Proxy).handleConnectRequest: session.setConn(nconn, brw) before the upgraded hand-off "+fmt.Sprintf("#%d", n), ok, "setConn with the same connection and reader dominates the hand-off", "the upgraded connection is never recorded in the session: Session.Hijack returns the cleartext-side connection", c.Pos())
 			// the upgraded connection derives from tls.Server after a successful handshake
 			fromTLS := anyIn(w.backSlice(arg, flowOpt{Through: map[string]bool{"(*M/trafficshape.Listener).GetTrafficShapedConn": true}}), func(v ssa.Value) bool { return isCallValue(v, "crypto/tls.Server") })
-			hs := plainCalls(hcr, "(*crypto/tls.Conn).Handshake")
+			hs := plainCalls(hcr, "(*crypto/tls.Conn).Handshake", "(*crypto/tls.Conn).HandshakeContext")
 			hsOK := false
 			for _, h := range hs {
 				for _, t := range errTests(h) {
@@ -436,13 +436,13 @@ func c05(r *Report) {
 	r.Guard("C05.R4", "the CONNECT request and everything inside its tunnel share one session", func() {
 		setterStoresRule(r, "", "Proxy", "SetMITM", "mitm", "CONNECT tunnels are relayed blindly although MITM was configured")
 		for _, c := range plainCalls(hcr, nHandle) {
-			r.Decide("flow", "hand-off passes the handler's own context: "+site(hcr, c), c.Call.Args[1] == ssa.Value(hcr.Params[1]), "ctx parameter forwarded", "a different context (hence session) is used inside the tunnel", c.Pos())
+			r.Decide("flow", "hand-off passes the handler's own context: "+site(hcr, c), isParamVal(c.Call.Args[1], hcr.Params[1]), "ctx parameter forwarded", "a different context (hence session) is used inside the tunnel", c.Pos())
 		}
 		for _, c := range plainCalls(handle, nHCR) {
 			sessArg := c.Call.Args[3]
-			ok := isCallValue(sessArg, "(*M.Context).Session") && sessArg.(*ssa.Call).Call.Args[0] == ssa.Value(handle.Params[1])
+			ok := isCallValue(sessArg, "(*M.Context).Session") && isParamVal(sessArg.(*ssa.Call).Call.Args[0], handle.Params[1])
 			r.Decide("flow", "CONNECT handler receives the connection's session: "+site(handle, c), ok, "session is ctx.Session() of the exchange function's context parameter", "the CONNECT handler is given a session other than the connection's", c.Pos())
-			r.Decide("flow", "CONNECT handler receives the exchange's connection: "+site(handle, c), unwrapIface(c.Call.Args[5]) == connP && c.Call.Args[4] == ssa.Value(handle.Params[3]), "conn and brw parameters forwarded", "the CONNECT handler works on a different connection/reader than the exchange", c.Pos())
+			r.Decide("flow", "CONNECT handler receives the exchange's connection: "+site(handle, c), unwrapIface(c.Call.Args[5]) == connP && isParamVal(c.Call.Args[4], handle.Params[3]), "conn and brw parameters forwarded", "the CONNECT handler works on a different connection/reader than the exchange", c.Pos())
 		}
 	})
 
@@ -470,7 +470,7 @@ func c05(r *Report) {
 		for _, c := range plainCalls(hcr, "(*M/mitm.Config).TLSForHost") {
 			pos = c.Pos()
 			if ld, isLd := c.Call.Args[1].(*ssa.UnOp); isLd {
-				if fa, isFa := ld.X.(*ssa.FieldAddr); isFa && fa.X == ssa.Value(hcr.Params[2]) && fieldObj(fa).Name() == "Host" {
+				if fa, isFa := ld.X.(*ssa.FieldAddr); isFa && isParamVal(fa.X, hcr.Params[2]) && fieldObj(fa).Name() == "Host" {
 					ok = true
 				}
 			}
@@ -488,7 +488,7 @@ func c05(r *Report) {
 				continue
 			}
 			if ld, isLd := st.Val.(*ssa.UnOp); isLd {
-				if fh, isFh := ld.X.(*ssa.FieldAddr); isFh && fh.X == req && fieldObj(fh).Name() == "Host" {
+				if fh, isFh := ld.X.(*ssa.FieldAddr); isFh && sameAs(fh.X, req) && fieldObj(fh).Name() == "Host" {
 					before := true
 					for _, c := range calls(handle) {
 						if (isReqMod(c) || calleeName(c) == nHCR) && !G(handle).Before(branchOf(st), c) {
